@@ -22,7 +22,7 @@
    outcome of every point against go/types (Info.Instances of a one-line call) - the fragment's
    reference semantics *is* go/types - and replays it through the real CodeBuilder. *)
 EXTENDS Integers, Sequences, FiniteSets, TLC, Json
-CONSTANTS SigIds, Forms, ExplNames, MaxExpl, MaxVariadic, FvSigs
+CONSTANTS SigIds, Forms, ExplNames, MaxExpl, MaxVariadic, FvSigs, TypeInst
 
 (* ---- types ---- *)
 B(n) == [k |-> "b", n |-> n]
@@ -187,6 +187,21 @@ InferFV(f, expl, target) ==
        ELSE IF \E i \in 1..Len(f.tps) : ~Satisfies(bd2, [tps |-> f.tps], i) THEN Fail
        ELSE bd2
 
+(* ---- instantiation of generic types, also through an overloaded type name (T__0, T__1: the first that instantiates) ---- *)
+\* a generic type is the list of its constraints
+TSig(i) == CASE i = 1 -> <<"any">>                         \* G[T any]
+             [] i = 2 -> <<"comparable">>                  \* GC[T comparable]
+             [] i = 3 -> <<"num">>                         \* GN[T int|float64]
+             [] i = 4 -> <<"comparable", "any">>           \* P2[K comparable, V any]
+             [] i = 5 -> <<"aint">>                        \* GA[T ~int]
+             [] i = 6 -> <<"core", "any">>                 \* GS[S ~[]E, E any]
+InstTypes == {TInt, TF64, TStr, MyInt, MySl, SlT(TInt), FnT(<<TInt>>, TInt), MapT(TStr, TInt)}
+\* one candidate: the right number of type arguments, each satisfying its constraint
+TInstOK(cs, targs) == Len(targs) = Len(cs) /\ \A i \in 1..Len(cs) : Satisfies(targs, [tps |-> cs], i)
+\* an overloaded type name: index of the first candidate that instantiates, 0 if none
+TFirst(fam, targs) == LET ok == {k \in 1..Len(fam) : TInstOK(TSig(fam[k]), targs)} IN IF ok = {} THEN 0 ELSE CHOOSE k \in ok : \A m \in ok : k <= m
+TFams == {<<i>> : i \in 1..6} \cup {<<1, 4>>, <<4, 1>>, <<2, 1>>, <<3, 5>>, <<5, 3>>, <<6, 4>>}
+
 (* ---- laws checked by TLC on every point ---- *)
 VARIABLES pt, ell
 RECURSIVE SeqsUpTo(_, _)
@@ -200,14 +215,15 @@ CallPoints == UNION {{[kind |-> "call", sig |-> i, expl |-> e, args |-> a] :
                         e \in SeqsUpTo(ExplTypes, Min(MaxExpl, NTP(Sig(i)))), a \in ArgLists(Sig(i))} : i \in SigIds}
 FvPoints == IF FvSigs = {} THEN {} ELSE
             UNION {{[kind |-> "fv", sig |-> i, expl |-> e, target |-> t] : e \in SeqsUpTo(ExplTypes, Len(FSig(i).tps)), t \in Targets} : i \in FvSigs}
-Init == /\ pt \in CallPoints \cup FvPoints
+TiPoints == IF ~TypeInst THEN {} ELSE {[kind |-> "ti", fam |-> f, targs |-> a] : f \in TFams, a \in SeqsUpTo(InstTypes, 2) \ {<<>>}}      \* G[] is not syntax
+Init == /\ pt \in CallPoints \cup FvPoints \cup TiPoints
         /\ ell \in (IF pt.kind = "call" /\ EllOK(Sig(pt.sig), pt.args) THEN BOOLEAN ELSE {FALSE})
 Next == UNCHANGED <<pt, ell>>
-Res == IF pt.kind = "fv" THEN InferFV(FSig(pt.sig), pt.expl, pt.target) ELSE InferE(Sig(pt.sig), pt.expl, pt.args, ell)
-NTPof == IF pt.kind = "fv" THEN Len(FSig(pt.sig).tps) ELSE NTP(Sig(pt.sig))
+Res == IF pt.kind = "ti" THEN (IF TFirst(pt.fam, pt.targs) = 0 THEN Fail ELSE pt.targs) ELSE IF pt.kind = "fv" THEN InferFV(FSig(pt.sig), pt.expl, pt.target) ELSE InferE(Sig(pt.sig), pt.expl, pt.args, ell)
+NTPof == IF pt.kind = "ti" THEN Len(pt.targs) ELSE IF pt.kind = "fv" THEN Len(FSig(pt.sig).tps) ELSE NTP(Sig(pt.sig))
 \* the explicit prefix is respected; the result satisfies the constraints; substitution is idempotent (no type parameter left)
-ExplicitRespected == ~Failed(Res) => \A i \in 1..Len(pt.expl) : Res[i] = pt.expl[i]
-InferredSatisfies == ~Failed(Res) => \A i \in 1..NTPof : Satisfies(Res, IF pt.kind = "fv" THEN [tps |-> FSig(pt.sig).tps] ELSE Sig(pt.sig), i) /\ ~HasTP(Res[i])
+ExplicitRespected == (pt.kind # "ti" /\ ~Failed(Res)) => \A i \in 1..Len(pt.expl) : Res[i] = pt.expl[i]
+InferredSatisfies == (pt.kind # "ti" /\ ~Failed(Res)) => \A i \in 1..NTPof : Satisfies(Res, IF pt.kind = "fv" THEN [tps |-> FSig(pt.sig).tps] ELSE Sig(pt.sig), i) /\ ~HasTP(Res[i])
 \* unification does not depend on the order of the arguments for the symmetric signature Same[T](a, b T), up to the choice named/literal
 Symmetric == (pt.kind = "call" /\ pt.sig = 12 /\ Len(pt.args) = 2 /\ ~ell) =>
                Failed(Res) = Failed(Infer(Sig(12), pt.expl, <<pt.args[2], pt.args[1]>>))
@@ -218,7 +234,9 @@ TypeStr(t) == CASE t.k = "b" -> t.n [] t.k = "n" -> "ov." \o t.n [] t.k = "sl" -
                 [] t.k = "map" -> "map[" \o TypeStr(t.key) \o "]" \o TypeStr(t.v)
                 [] t.k = "fn" -> "func(" \o Join([j \in 1..Len(t.ps) |-> TypeStr(t.ps[j])], 1) \o ") " \o TypeStr(t.r)
                 [] OTHER -> "?"
-Emit == PrintT(ToJson([kind |-> pt.kind, sig |-> pt.sig, expl |-> [j \in 1..Len(pt.expl) |-> TypeStr(pt.expl[j])],
+Emit == IF pt.kind = "ti"
+        THEN PrintT(ToJson([kind |-> "ti", fam |-> pt.fam, expl |-> [j \in 1..Len(pt.targs) |-> TypeStr(pt.targs[j])], first |-> TFirst(pt.fam, pt.targs), ok |-> TFirst(pt.fam, pt.targs) # 0]))
+        ELSE PrintT(ToJson([kind |-> pt.kind, sig |-> pt.sig, expl |-> [j \in 1..Len(pt.expl) |-> TypeStr(pt.expl[j])],
                        args |-> IF pt.kind = "fv" THEN <<>> ELSE pt.args, ell |-> ell,
                        target |-> IF pt.kind = "fv" THEN TypeStr(pt.target) ELSE "",
                        ok |-> ~Failed(Res), targs |-> IF Failed(Res) THEN <<>> ELSE [i \in 1..NTPof |-> TypeStr(Res[i])]]))
